@@ -46,13 +46,13 @@ Judge(r) ==      \* <<set of rejected points (0 = wrong number of rows), class o
                    ELSE "undefined:flag",
               ~lenbad(r.n) /\ \E k \in algo.free : RSub(oy[k], oy[ref]) # RSub(algo.y[k], algo.y[ref])>>
     [] r.op = "table_integrate" ->
-         LET g == IntPre(T(r.t), r.x0, r.h, r.mode, r.kt)
-             hh == RMul(r.h, <<1, 2>>)
+         LET xs == XSeq(r.x0, r.h, r.g)
+             g == IntPre(T(r.t), xs, r.mode, r.kt)
              z == IF r.from = "left" THEN 1 ELSE r.n
              bad == IF lenbad(r.n) THEN {0}
                     ELSE {k \in 1..r.n : \/ of[k] # r.t.f[k]
                                          \/ (k = z /\ oy[k] # RZero)
-                                         \/ (k < r.n /\ RSub(oy[k + 1], oy[k]) # RMul(hh, RAdd(g[k], g[k + 1])))}
+                                         \/ (k < r.n /\ RSub(oy[k + 1], oy[k]) # Trapez(g, xs, k))}
              k0 == SetMinOr0(bad)
          IN <<bad, IF k0 = 0 THEN "rows" ELSE IF of[k0] # r.t.f[k0] THEN "flag" ELSE "value", FALSE>>
     [] r.op = "table_smooth" ->
@@ -68,10 +68,10 @@ Judge(r) ==      \* <<set of rejected points (0 = wrong number of rows), class o
     [] OTHER ->
          LET o == CASE r.op = "table_linearop" -> LinearOp(T(r.t), r.a, r.b, r.wf)
                     [] r.op = "table_combine" -> Combine(T(r.t1), T(r.t2), r.cop, r.sc, r.wf)
-                    [] r.op = "table_scale" -> Scale(T(r.t), r.p1, r.p2)
-                    [] r.op = "resample_derivative" -> Differentiate(T(r.t), r.h)
+                    [] r.op = "table_scale" -> Scale(T(r.t), XSeq(r.x0, r.h, r.g), r.p1, r.p2)
+                    [] r.op = "resample_derivative" -> Differentiate(T(r.t), XSeq(r.x0, r.h, r.g), r.g)
                     [] r.op = "potential_shift" -> Shift(T(r.t), r.type)
-                    [] r.op = "table_extrapolate" -> Extrapolate(T(r.t), r.h, r.fn, r.region, r.A, r.C, r.fu)
+                    [] r.op = "table_extrapolate" -> Extrapolate(T(r.t), XSeq(r.x0, r.h, r.g), r.fn, r.region, r.A, r.C, r.fu)
                     [] r.op = "merge_tables" -> Merge(T(r.src), r.off, T(r.dst), r.wf, r.noflags, r.novalues)
                     [] r.op = "add_POT" -> AddPot(T(r.t1), T(r.t2))
              bad == TableBad(o, oy, of)
